@@ -84,6 +84,7 @@ Inductive err :=
 | EMissing (k : str)          (* missing variable *)
 | EUnclosed (pos : N)         (* unclosed brace at byte offset *)
 | ECycle (k : str)            (* cycle involving variable *)
+| ETooDeep (k : str)          (* variables nested more than max_depth levels deep (fix: a typed error instead of a stack overflow) *)
 | EExpr (e : str)             (* expression error; carries the expression text *)
 | EFromMissing (k : str)      (* var_options from: names a non-existing variable *)
 | EFromBoth (k : str)         (* variable has both values and from: *)
